@@ -58,7 +58,9 @@ CallBN(c, body)     == [k |-> "callb", comp |-> c, body |-> body]
 SlotN(af)           == [k |-> "slot", after |-> af]
 GoCodeN             == [k |-> "gocode"]
 HCommentN(af)       == [k |-> "hcomment", after |-> af]
-GCommentN           == [k |-> "gcomment"]
+GCommentN           == [k |-> "gcomment"]                                           \* // line comment
+MCommentN(af)       == [k |-> "mcomment", after |-> af]                             \* /* block comment */, may sit inside a line
+GoCodeMLN           == [k |-> "gocodeml"]                                           \* {{ ... }} spanning several lines (raw string inside)
 RawN(nm, af)        == [k |-> "raw", name |-> nm, after |-> af]                    \* <style>/<script> constant content
 DoctypeN            == [k |-> "doctype"]
 
@@ -66,9 +68,9 @@ Trailer(nd) == nd.k \in {"text", "expr", "void", "el"}
 \* whitespace written after a node in the source
 WsAfter(nd) == IF nd.k = "text" /\ nd.tr = "" /\ "sp" \in DOMAIN nd /\ nd.sp THEN "h"   \* space kept inside the text value
                ELSE IF Trailer(nd) THEN nd.tr
-               ELSE IF nd.k \in {"slot", "hcomment", "raw"} THEN nd.after
+               ELSE IF nd.k \in {"slot", "hcomment", "mcomment", "raw"} THEN nd.after
                ELSE "v"                       \* control flow, calls, Go code, Go comments, doctype end their line
-LineStart(k) == k \in {"if", "for", "switch", "call", "callb", "gocode", "gcomment", "doctype"}
+LineStart(k) == k \in {"if", "for", "switch", "call", "callb", "gocode", "gocodeml", "gcomment", "doctype"}
 
 \* whitespace in front of the next node to be added to a frame
 WsBefore(fr) == IF fr.items = <<>> THEN fr.lead ELSE WsAfter(fr.items[Len(fr.items)])
@@ -78,6 +80,7 @@ LastKind(fr) == IF fr.items = <<>> THEN "none" ELSE fr.items[Len(fr.items)].k
 CanAdd(fr, k) ==
     /\ LineStart(k) => WsBefore(fr) = "v"
     /\ (k = "text" /\ LastKind(fr) = "text") => WsBefore(fr) = "v"      \* two texts on one line are one text
+    /\ (k = "mcomment" /\ LastKind(fr) = "text") => WsBefore(fr) = "v"  \* a text runs up to the next `<`, `{` or line break
     /\ k = "doctype" => (fr.k = "root" /\ fr.items = <<>>)
 
 -----------------------------------------------------------------------------
@@ -108,8 +111,9 @@ Leaves ==
     {CallN(c) : c \in {"leaf", "wrap"}} \cup
     {SlotN(af) : af \in Ws} \cup
     {HCommentN(af) : af \in Ws} \cup
+    {MCommentN(af) : af \in Ws} \cup
     {RawN(nm, af) : nm \in {"style", "script"}, af \in Ws} \cup
-    {GoCodeN, GCommentN, DoctypeN}
+    {GoCodeN, GoCodeMLN, GCommentN, DoctypeN}
 
 OpenFrame(fr) == /\ Budget
                  /\ Len(stack) < MaxDepth
@@ -186,7 +190,7 @@ Spec == Init /\ [][Next]_vars
 
 -----------------------------------------------------------------------------
 (* Denotation *)
-Opaque(nd) == nd.k \in {"if", "for", "switch", "call", "callb", "slot", "gocode", "gcomment"}
+Opaque(nd) == nd.k \in {"if", "for", "switch", "call", "callb", "slot", "gocode", "gocodeml", "gcomment", "mcomment"}
 Inline(nd) == nd.k \in {"text", "expr"} \/ (nd.k \in {"el", "void"} /\ nd.name \in InlineNames)
 
 \* what precedes the next token: st "open" = the parent's start tag, "node" = a sibling's last token,
@@ -307,7 +311,9 @@ DenNode(nd, prev, env) ==
                             evs |-> r.evs, prev |-> POpaque]
       [] nd.k = "slot" -> [toks |-> KidToks, evs |-> <<>>, prev |-> POpaque]
       [] nd.k = "gocode" -> [toks |-> <<>>, evs |-> << "G" >>, prev |-> POpaque]
+      [] nd.k = "gocodeml" -> [toks |-> <<>>, evs |-> << "G" >>, prev |-> POpaque]
       [] nd.k = "gcomment" -> [toks |-> <<>>, evs |-> <<>>, prev |-> POpaque]
+      [] nd.k = "mcomment" -> [toks |-> <<>>, evs |-> <<>>, prev |-> POpaque]
       [] nd.k = "hcomment" -> [toks |-> << Tok("comment", "c", Gap(prev, nd)) >>, evs |-> <<>>, prev |-> PNode(nd)]
       [] nd.k = "raw" -> [toks |-> << Tok("raw", nd.name, Gap(prev, nd)) >>, evs |-> <<>>, prev |-> PNode(nd)]
       [] nd.k = "doctype" -> [toks |-> << Tok("doctype", "html", "may") >>, evs |-> <<>>, prev |-> POpaque]
